@@ -421,6 +421,8 @@ def _cands(S, T, v):
         if S.kind == "float" and v != NAN and f_is_neg(v, S.fmt) and x == 0:
             return {"rne": 1 << (FMT[T.fmt][2] - 1)}
         out = {"rne": f_round(x, T.fmt)}
+        if not isinstance(x, str) and isinstance(f_decode(out["rne"], T.fmt), str):
+            out["overflow-error"] = ERR          # finite value beyond the target's range: infinity (IEEE) or an error
         if S.kind == "decimal":
             out["fdiv"] = _fdiv_float(S, T, v)
             if v < 0 and out["rne"] == 0:
@@ -430,11 +432,33 @@ def _cands(S, T, v):
     raise ValueError((S, T))
 
 
+def fast_expected(S, T, v):
+    """Integer sources have a single admissible outcome: computed without the candidate machinery. None = no fast path."""
+    import struct
+    if S.kind != "int" or T.kind not in NUMERIC:
+        return None
+    if T.kind == "int":
+        return v if T.lo <= v <= T.hi else ERR
+    if T.kind == "decimal":
+        u = v * 10 ** T.s
+        return u if abs(u) < 10 ** T.p else ERR
+    if T.fmt == "f64":
+        return struct.unpack("<Q", struct.pack("<d", float(v)))[0]
+    if T.fmt == "f32" and abs(v) < 2 ** 24:
+        return struct.unpack("<I", struct.pack("<f", float(v)))[0]
+    if T.fmt == "f16" and abs(v) < 2 ** 11:
+        return struct.unpack("<H", struct.pack("<e", float(v)))[0]
+    return f_round(Fraction(v), T.fmt)
+
+
 PRIMARY = {("float", "int"): "trunc", ("decimal", "int"): "trunc", ("decimal", "decimal"): "away",
            ("float", "decimal"): "fmul", ("decimal", "float"): "fdiv"}
 
 
 def primary(S, T, v):
+    e = fast_expected(S, T, v)
+    if e is not None:
+        return e
     c = cands(S, T, v)
     r = PRIMARY.get((S.kind, T.kind))
     if r in c:
@@ -479,6 +503,8 @@ def hard(S, T, v, obs):
         return None
     if T.kind == "float":
         if obs == ERR:
+            if not isinstance(x, str) and isinstance(f_decode(f_round(x, T.fmt), T.fmt), str):
+                return None
             return "unexpected-error"
         if x == NAN:
             return None if obs == NAN else "nan-lost"
@@ -562,6 +588,9 @@ def text_expect(T, s):
             out = {"rne": f_round(x, T.fmt)}
             if out["rne"] == 0 and neg:
                 out["rne"] = signbit
+            if not isinstance(x, str) and isinstance(f_decode(out["rne"], T.fmt), str):
+                ok = {out["rne"]}
+                return ("free", lambda r: r in ok)
             if T.fmt == "f16":
                 v32 = f_round(x, "f32")
                 out["via-f32"] = f_round(f_decode(v32, "f32"), "f16")
@@ -580,6 +609,9 @@ def text_expect(T, s):
             out = {m: _to_dec(T, x, m) for m in ("away", "even", "trunc")}
             if all(v == ERR for v in out.values()):
                 return ("err",)
+            if not re.match(r"^[+-]?[0-9]+(\.[0-9]+)?$", s):
+                ok = {v for v in out.values() if v != ERR}
+                return ("free", lambda r: r in ok)
             if any(v == ERR for v in out.values()):
                 ok = {v for v in out.values() if v != ERR}
                 return ("free", lambda r: r in ok)
